@@ -301,7 +301,7 @@ def _otfad_cfg_case(maxlen: int):
         "blobs": _regions(blob, 3, 5), "data": st.lists(data, min_size=1, max_size=3), "kek": st.binary(min_size=16, max_size=16),
         "scr": st.one_of(st.none(), st.fixed_dictionaries({"mask": st.integers(1, 0xFFFFFFFF), "align": st.integers(1, 255)})),
         "first16": st.one_of(st.integers(0, 300), st.integers(0, 4).map(lambda u: u * 64)),
-        "num_form": st.sampled_from(["int", "hex"]),
+        "num_form": st.sampled_from(["int", "hex"]), "exports": st.sampled_from([1, 1, 2, 3]),
     })
 
 
@@ -359,8 +359,16 @@ def run_otfad_cfg(case, o: Oracle, work: str) -> None:
             scr = None
         check_config(cfg, OtfadNxp.get_validation_schemas(case["family"]), search_paths=[wdir])
         otfad = OtfadNxp.load_from_config(cfg, wdir, search_paths=[wdir])
+        first = None
+        if case.get("exports", 1) > 1:
+            o.label("export_history")
+            first = bytes(otfad.binary_image().export())
+            for _ in range(case["exports"] - 2):
+                otfad.export_image()
         img = otfad.binary_image()
         exported = bytes(img.export())
+        if first is not None:
+            o.check("otfad_config", first == exported, "export_not_repeatable", "export %d of one OtfadNxp object differs from the first one" % case["exports"])
         img_base = img.absolute_address
         swap_cnt = db.get_int(DatabaseManager.OTFAD, "keyblob_byte_swap_cnt")
         rev = db.get_bool(DatabaseManager.OTFAD, "reversed_scramble_key", False)
@@ -546,7 +554,7 @@ def _iee_cfg_case(maxlen: int):
         "family": st.sampled_from(_IEE_FAMILIES), "origin": st.sampled_from([0x30000000, 0x04000000, 0x28000000]),
         "regions": _regions(_iee_region(_IEE_MODELLED), 2, 3), "data": st.lists(data, min_size=1, max_size=3),
         "ibkek1": st.binary(min_size=32, max_size=32), "ibkek2": st.binary(min_size=32, max_size=32), "first": st.integers(0, 4),
-        "num_form": st.sampled_from(["int", "hex"]),
+        "num_form": st.sampled_from(["int", "hex"]), "exports": st.sampled_from([1, 1, 2, 3]),
     })
 
 
@@ -604,8 +612,17 @@ def run_iee_cfg(case, o: Oracle, work: str) -> None:
 
         check_config(cfg, IeeNxp.get_validation_schemas(case["family"]), search_paths=[wdir])
         iee = IeeNxp.load_from_config(cfg, wdir, search_paths=[wdir])
+        first = None
+        if case.get("exports", 1) > 1:
+            # the object is asked more than once (nxpimage writes the key blobs, the whole image and every data blob in turn)
+            o.label("export_history")
+            first = bytes(iee.binary_image(keyblob_name="iee_keyblob.bin", image_name="iee_whole_image.bin").export())
+            for _ in range(case["exports"] - 2):
+                iee.export_image()
         img = iee.binary_image(keyblob_name="iee_keyblob.bin", image_name="iee_whole_image.bin")
         exported = bytes(img.export())
+        if first is not None:
+            o.check("iee_config", first == exported, "export_not_repeatable", "export %d of one IeeNxp object differs from the first one" % case["exports"])
         img_base = img.absolute_address
         gen_kb = get_db(case["family"], "latest").get_bool(DatabaseManager.IEE, "generate_keyblob")
     if exported is None:
